@@ -23,6 +23,8 @@ pub use reconstruction::reconstruct;
 pub use update::update;
 #[cfg(nomt_verif)]
 pub use update::leaf_updater_verif;
+#[cfg(nomt_verif)]
+pub use update::{branch_stage_verif, branch_updater_verif};
 
 /// Do a partial lookup of the key in the beatree.
 ///
